@@ -1,5 +1,111 @@
-(* STUB: Spec layer for hmat -- to be written *)
-From Coq Require Import NArith List.
-From ACPI Require Import Lib.Bytes Lib.Sx Spec.Layout.
+(* Spec layer for the HMAT (ACPI 6.5 5.2.28), written from SPEC_NOTES.md A.2.
+   Case vocabulary (shared with the harness):
+     ctor  (oem6 tbl8 orev)
+     ops   (1 initiator_pd memory_pd)                                       add_memory_proximity(MemoryProximityDomain::new)
+           (2 loc_type data_type min_transfer base_unit ni nt (builders))   add_system_locality(SystemLocality::new + builders)
+                 loc_type  0 Memory 1 FirstLevelCache 2 SecondLevelCache 3 ThirdLevelCache
+                 data_type 0 AccessLatency 1 ReadLatency 2 WriteLatency 3 AccessBandwidth 4 ReadBandwidth 5 WriteBandwidth
+                 min_transfer 0 SizeByteAligned 1 Size64b 2 Size128b 3 Size256b 4 Size512b 5 Size1k 6 Size2k 7 Size4k
+                              8 Size8k 9 Size16k 10 Size32k 11 Size64k
+                 builders  (1) non_sequential_transfers   (2) minimum_transfer_size_required
+                           (3 idx v) set_initiator_value  (4 idx v) set_target_value  (5 i j v) set_entry_value
+           (3 pd cache_size total_levels this_level associativity write_policy line_size (h ...))
+                                                                            add_memory_side_cache(MemorySideCache::new, then add_smbios_handle calls)
+                 total_levels / this_level 0 None 1 One 2 Two 3 Three;  associativity 0 None 1 DirectMapped 2 Complex;
+                 write_policy 0 None 1 Writeback 2 Writethrough;  (h ...) the SMBIOS handles in the order they are added
+     every op reports 0 (no handle is returned) *)
+From Coq Require Import NArith List Bool.
+From ACPI Require Import Lib.Bytes Lib.Sx Spec.Layout Spec.MadtS.
 Import ListNotations.
-Definition hmat_spec : tspec := null_spec.
+Open Scope N_scope.
+
+(* an array of equally wide little-endian elements following a fixed part laid out with [lay]
+   (long arrays are appended directly: the offset bookkeeping of [lay] is quadratic in the number of fields) *)
+Definition arr (w : nat) (vals : list N) : list N := concat (map (le w) vals).
+
+Definition lay_then (size : nat) (l : layout) (rest : list N) : option (list N) :=
+  match lay size l with Some fixed => Some (fixed ++ rest) | None => None end.
+
+Definition seqN (n : N) : list N := map N.of_nat (seq 0 (N.to_nat n)).
+
+(* last value assigned to slot [idx] by a builder (k idx v); [acc] when never assigned *)
+Fixpoint last_slot (k idx : N) (bs : list sx) (acc : N) : N :=
+  match bs with
+  | [] => acc
+  | SL [SA k'; SA i; SA v] :: r => last_slot k idx r (if (k' =? k) && (i =? idx) then v else acc)
+  | _ :: r => last_slot k idx r acc
+  end.
+
+(* last value assigned to the cell (i, j) by a builder (5 i j v) *)
+Fixpoint last_cell (i j : N) (bs : list sx) (acc : N) : N :=
+  match bs with
+  | [] => acc
+  | SL [SA 5; SA i'; SA j'; SA v] :: r => last_cell i j r (if (i' =? i) && (j' =? j) then v else acc)
+  | _ :: r => last_cell i j r acc
+  end.
+
+Definition sl_builder_ok (nI nT : N) (b : sx) : bool :=
+  match b with
+  | SL [SA 1] | SL [SA 2] => true
+  | SL [SA 3; SA i; SA v] => (i <? nI) && (v <? 2 ^ 32)
+  | SL [SA 4; SA j; SA v] => (j <? nT) && (v <? 2 ^ 32)
+  | SL [SA 5; SA i; SA j; SA v] => (i <? nI) && (j <? nT) && (v <? 2 ^ 16)
+  | _ => false
+  end.
+
+Definition is_op (k : N) (b : sx) : bool := match b with SL [SA k'] => k' =? k | _ => false end.
+
+Definition hmat_entry_ref (o : sx) : option (list N) :=
+  match o with
+  | SL [SA 1; SA ipd; SA mpd] =>
+      (* Memory Proximity Domain Attributes: flags bit 0 = initiator proximity domain valid *)
+      lay 40 [L 0 2 0; L 2 2 0; L 4 4 40; L 8 2 1; L 10 2 0; L 12 4 ipd; L 16 4 mpd; L 20 8 0; L 28 8 0; L 36 4 0]
+  | SL [SA 2; SA lt; SA dt; SA mts; SA unit; SA nI; SA nT; SL bs] =>
+      (* System Locality Latency and Bandwidth Information: entry (i, j) at index i * nT + j, default 0xFFFF *)
+      let len := 32 + 4 * nI + 4 * nT + 2 * (nI * nT) in
+      if (lt <? 4) && (dt <? 6) && (mts <? 12) && (unit <? 2 ^ 64) && (len <? 2 ^ 32) && forallb (sl_builder_ok nI nT) bs then
+        let flags := lt + (if ever (is_op 2) bs then 16 else 0) + (if ever (is_op 1) bs then 32 else 0) in
+        let inits := map (fun i => last_slot 3 i bs 0) (seqN nI) in
+        let targets := map (fun j => last_slot 4 j bs 0) (seqN nT) in
+        let cells := flat_map (fun i => map (fun j => last_cell i j bs 0xFFFF) (seqN nT)) (seqN nI) in
+        (* 32 fixed bytes, then nI initiator domains (4 each), nT target domains (4 each), nI * nT entries (2 each) *)
+        lay_then 32
+            [L 0 2 1; L 2 2 0; L 4 4 len; L 8 1 flags; L 9 1 dt; L 10 1 mts; L 11 1 0; L 12 4 nI; L 16 4 nT; L 20 4 0; L 24 8 unit]
+            (arr 4 inits ++ arr 4 targets ++ arr 2 cells)
+      else None
+  | SL [SA 3; SA pd; SA size; SA total; SA level; SA assoc; SA policy; SA line; SL hs] =>
+      (* Memory Side Cache Information *)
+      match sx_nums hs with
+      | Some handles =>
+          let n := N.of_nat (length handles) in
+          if (n <? 2 ^ 16) && forallb (fun h => h <? 2 ^ 16) handles && (total <? 4) && (level <? 4) && (assoc <? 3) && (policy <? 3)
+             && (line <? 2 ^ 16) then
+            let attrs := total + 16 * level + 256 * assoc + 4096 * policy + 65536 * line in
+            lay_then 32
+                [L 0 2 2; L 2 2 0; L 4 4 (32 + 2 * n); L 8 4 pd; L 12 4 0; L 16 8 size; L 24 4 attrs; L 28 2 0; L 30 2 n]
+                (arr 2 handles)
+          else None
+      | None => None
+      end
+  | _ => None
+  end.
+
+Definition hmat_entries_ref (ops : list sx) : option (list (list N)) := opt_concat (map hmat_entry_ref ops).
+
+Definition hmat_image (ctor : sx) (ops : list sx) : option (list N) :=
+  match ctor with
+  | SL [o; t; r] =>
+      match sx_hdr_args o t r, hmat_entries_ref ops with
+      | Some h, Some es => Some (ref_table [72; 77; 65; 84] 1 h (le 4 0 ++ concat es))
+      | _, _ => None
+      end
+  | _ => None
+  end.
+
+Definition hmat_spec : tspec := {|
+  ts_image := hmat_image;
+  ts_walk := Some (40%nat, H_u16_u16_u32);
+  ts_entries := fun _ ops => option_map (map (fun e => (unle (firstn 2 e), length e))) (hmat_entries_ref ops);
+  ts_counts := fun _ => [];
+  ts_returns := fun _ => false
+|}.
